@@ -18,6 +18,10 @@ Print Assumptions C19_flatten_total.
    ([pipe]); with no flag the text passes through the UTF-8 <-> UTF-16 conversion only.
    The two ping-pong buffers and cur/tmp are as coded; the statement holds from any
    state they are left in by earlier lines (process_line_spec). *)
+(* Reading aid: [pipe] on the right-hand side composes the same model functions (lower, flatten_fn,
+   nfkc) that the loop body calls; the content of the theorem is the buffer discipline -- whatever
+   state str[0]/str[1]/cur/tmp are in, the printed buffer is the one holding the last result, for
+   every flag set and every line index.  What flatten_fn computes is C19_flatten_spec. *)
 Theorem C19_pipeline_spec : forall lower nfkc isspace lang fl d ls us,
   flatten_for lang = Some d ->
   Forall2 (fun l u => from_utf8 l = Some u) ls us ->
@@ -35,6 +39,8 @@ Print Assumptions C19_pipeline_spec.
    every other code point is copied once.  U = UTF-16 encoding of a code point list.
    Side conditions on the tables (start characters and rule suffixes are BMP, no
    surrogates) are checked on the regenerated tables by vm_compute (languages_ok). *)
+(* [flatten_spec] is totalised by a fuel argument fs and returns [] when it runs out; the premise
+   length cs < fs excludes that case, so the statement is about the real recursion only. *)
 Theorem C19_flatten_spec : forall isspace lang d cs fs,
   flatten_for lang = Some d -> forallb is_scalar cs = true -> (length cs < fs)%nat ->
   flatten_apply isspace d (utf16_of_cps cs) = Some (utf16_of_cps (flatten_spec isspace fs d cs)).
